@@ -147,6 +147,65 @@ pub struct SimpleGlyph {
     pub contours: Vec<Vec<(i16, i16, bool)>>,
     pub program: Vec<GOp>,
     pub advance: u16,
+    /// how flags and coordinates are written (all are valid encodings of the same points): 0 one flag byte per point and
+    /// 16-bit deltas; 1 every flag carries REPEAT with count 0 (two bytes per point); 2 runs of equal flags compressed with
+    /// REPEAT; 3 short vectors / same-as-previous bits where possible plus compressed runs; 4 a mixture by position
+    #[serde(default)]
+    pub enc: u8,
+}
+
+/// flag bytes, x bytes, y bytes for the points of a simple glyph in encoding style `enc`
+fn encode_points(pts: &[(i32, i32, bool)], enc: u8) -> (Vec<u8>, Vec<u8>, Vec<u8>) {
+    let (mut xs, mut ys) = (vec![], vec![]);
+    let mut flags: Vec<u8> = vec![];
+    let (mut lx, mut ly) = (0i32, 0i32);
+    for (i, (x, y, on)) in pts.iter().enumerate() {
+        let style = if enc == 4 { [0u8, 3, 1, 3][i % 4] } else { enc };
+        let short = style == 3;
+        let mut f = *on as u8;
+        let (dx, dy) = (x - lx, y - ly);
+        lx = *x;
+        ly = *y;
+        for (d, out, short_bit, same_bit) in [(dx, &mut xs, 0x02u8, 0x10u8), (dy, &mut ys, 0x04u8, 0x20u8)] {
+            if short && d == 0 {
+                f |= same_bit;
+            } else if short && (-255..=255).contains(&d) {
+                f |= short_bit | if d >= 0 { same_bit } else { 0 };
+                out.push(d.unsigned_abs() as u8);
+            } else {
+                out.extend_from_slice(&(d as i16).to_be_bytes());
+            }
+        }
+        flags.push(f);
+    }
+    let mut fb: Vec<u8> = vec![];
+    let mut i = 0;
+    while i < flags.len() {
+        let style = if enc == 4 { [0u8, 3, 1, 3][i % 4] } else { enc };
+        match style {
+            1 => {
+                fb.extend_from_slice(&[flags[i] | 0x08, 0]);
+                i += 1;
+            }
+            2 | 3 => {
+                let mut run = 1;
+                while i + run < flags.len() && flags[i + run] == flags[i] && run < 256 {
+                    run += 1;
+                }
+                if run >= 2 {
+                    fb.extend_from_slice(&[flags[i] | 0x08, (run - 1) as u8]);
+                } else {
+                    fb.push(flags[i]);
+                }
+                i += run;
+            }
+            _ => {
+                fb.push(flags[i]);
+                i += 1;
+            }
+        }
+    }
+    (fb, xs, ys)
 }
 
 #[derive(Clone, Debug, Serialize, Deserialize, PartialEq)]
@@ -1660,25 +1719,11 @@ pub fn build(f: &SynthFont) -> Built {
         let prog = e.out;
         be16(&mut glyf, prog.len() as i32);
         glyf.extend_from_slice(&prog);
-        for c in &contours {
-            for p in c.iter() {
-                glyf.push(p.2 as u8); // flags: on-curve bit only; coordinates as 16-bit deltas
-            }
-        }
-        let mut last = 0i32;
-        for c in &contours {
-            for p in c.iter() {
-                be16(&mut glyf, p.0 as i32 - last);
-                last = p.0 as i32;
-            }
-        }
-        last = 0;
-        for c in &contours {
-            for p in c.iter() {
-                be16(&mut glyf, p.1 as i32 - last);
-                last = p.1 as i32;
-            }
-        }
+        let pts: Vec<(i32, i32, bool)> = contours.iter().flat_map(|c| c.iter().map(|p| (p.0 as i32, p.1 as i32, p.2))).collect();
+        let (fb, xb, yb) = encode_points(&pts, g.enc);
+        glyf.extend_from_slice(&fb);
+        glyf.extend_from_slice(&xb);
+        glyf.extend_from_slice(&yb);
         if glyf.len() % 2 == 1 {
             glyf.push(0);
         }
@@ -2076,8 +2121,8 @@ fn program(len: std::ops::Range<usize>) -> impl Strategy<Value = Vec<GOp>> {
 }
 
 fn simple_glyph() -> impl Strategy<Value = SimpleGlyph> {
-    (proptest::collection::vec(proptest::collection::vec((coord(), coord(), proptest::bool::weighted(0.7)), 3..9), 1..4), program(0..14), 200u16..1400)
-        .prop_map(|(contours, program, advance)| SimpleGlyph { contours, program, advance })
+    (proptest::collection::vec(proptest::collection::vec((coord(), coord(), proptest::bool::weighted(0.7)), 3..9), 1..4), program(0..14), 200u16..1400, prop_oneof![3 => Just(0u8), 1 => Just(1u8), 1 => Just(2u8), 1 => Just(3u8), 1 => Just(4u8)])
+        .prop_map(|(contours, program, advance, enc)| SimpleGlyph { contours, program, advance, enc })
 }
 
 fn component() -> impl Strategy<Value = Component> {
